@@ -226,7 +226,8 @@ type KnownFinding struct {
 	Commit   string `json:"commit,omitempty"`
 	What     string `json:"what"`
 	Match    struct {
-		Rule          string            `json:"rule"`
+		Rule          string            `json:"rule,omitempty"`
+		RuleRegex     string            `json:"rule_regex,omitempty"`
 		RelationRegex string            `json:"relation_regex,omitempty"`
 		Scope         map[string]string `json:"scope,omitempty"`
 		OpsAnyOf      []string          `json:"ops_any_of,omitempty"`
@@ -247,7 +248,14 @@ func LoadKnown(path string) []KnownFinding {
 }
 
 func (k *KnownFinding) Matches(v *chain.Violation) bool {
-	if k.Status != "known" || k.Property != v.Property || k.Match.Rule != v.Rule {
+	if k.Status != "known" || k.Property != v.Property {
+		return false
+	}
+	if k.Match.RuleRegex != "" {
+		if ok, _ := regexp.MatchString(k.Match.RuleRegex, v.Rule); !ok {
+			return false
+		}
+	} else if k.Match.Rule != v.Rule {
 		return false
 	}
 	if k.Match.RelationRegex != "" {
